@@ -11,6 +11,8 @@ type Case struct {
 	Src   []byte   `json:"src,omitempty"`   // program source (run, compile, json, runfiles, hist)
 	Srcs  [][]byte `json:"srcs,omitempty"`  // several sources (astcmp, conc, hist)
 	Texts [][]byte `json:"texts,omitempty"` // inputs for Run
+	// sources compiled (results ignored) in the same process BEFORE the case proper: history for what follows
+	Prelude [][]byte `json:"prelude,omitempty"`
 
 	// budgets (0 = default)
 	StepBudget int `json:"step_budget,omitempty"`
